@@ -212,3 +212,172 @@ func init() {
 		tr.emit(map[string]any{"ev": "end", "t": w.now(), "leaks": 0, "clean": true})
 	}
 }
+
+// setters-rt (real time; specification spec/StreamLock.tla, negative control ReentrantRLock): one goroutine writes a
+// few hundred messages on a stream while several others hammer every setter and accessor of that stream (write-lock
+// and read-lock requests arriving all the time) and of the association, over a free-running loss-free network. The
+// write loop reads the stream's parameters under the stream's lock for every chunk it gathers. The only verdict is a
+// CERTIFIED lock cycle: goroutines that have not finished 8 s after the writer's last call AND two stack samples one
+// second apart showing the same goroutines blocked on mutexes inside pion/sctp.
+func init() {
+	vfModes["setters-rt"] = func(t *testing.T) {
+		shard := vfEnvInt("VF_SHARD", 0)
+		tr, err := vfNewTrace(vfOut(fmt.Sprintf("setters-rt-%d.ndjson", shard)))
+		if err != nil {
+			t.Fatal(err)
+		}
+		defer tr.close()
+		kinds := []struct {
+			name  string
+			rtype byte
+			rval  uint32
+			unord bool
+		}{
+			{"rexmit0", ReliabilityTypeRexmit, 0, false},
+			{"timed", ReliabilityTypeTimed, 1, true},
+			{"reliable", ReliabilityTypeReliable, 0, false},
+			{"rexmit1-unordered", ReliabilityTypeRexmit, 1, true},
+		}
+		kd := kinds[shard%len(kinds)]
+		il := (shard/len(kinds))%2 == 1
+		label := fmt.Sprintf("setters-rt-%s-il%v#%d", kd.name, il, shard)
+		mem, _ := vfNewTrace("")
+		w := vfNewWorld(vfWorldOpt{Label: label, Trace: tr, RT: true, NoSnap: true,
+			A: vfEpCfg{InitTSN: 3000, Tag: 0xAF, IL: il}, B: vfEpCfg{InitTSN: 4000, Tag: 0xBF, IL: il, Server: true}})
+		w.cfgEvent()
+		w.tr = mem
+		stopNet := make(chan struct{})
+		var netWG sync.WaitGroup
+		netWG.Add(1)
+		go func() {
+			defer netWG.Done()
+			for {
+				select {
+				case <-stopNet:
+					return
+				case <-w.activity:
+				case <-time.After(time.Millisecond):
+				}
+				for _, p := range w.pending(-1) {
+					if q := w.take(p.id); q != nil {
+						w.push(1-q.from, q.raw)
+					}
+				}
+			}
+		}()
+		defer func() { close(stopNet); netWG.Wait() }()
+		w.start(1)
+		w.start(0)
+		est := false
+		for i := 0; i < 30000 && !est; i++ {
+			time.Sleep(time.Millisecond)
+			w.mu.Lock()
+			est = w.ep[0].connRet && w.ep[1].connRet && w.ep[0].connErr == nil && w.ep[1].connErr == nil
+			w.mu.Unlock()
+		}
+		if !est {
+			t.Fatalf("%s: associations did not establish", label)
+		}
+		a, b := w.ep[0].a, w.ep[1].a
+		sa, err := a.OpenStream(1, PayloadTypeWebRTCBinary)
+		if err != nil {
+			t.Fatal(err)
+		}
+		sa.SetReliabilityParams(kd.unord, kd.rtype, kd.rval)
+		go func() { // the peer reads whatever arrives
+			sb, err := b.AcceptStream()
+			if err != nil {
+				return
+			}
+			buf := make([]byte, 1<<16)
+			for {
+				if _, _, err := sb.ReadSCTP(buf); err != nil {
+					return
+				}
+			}
+		}()
+		var stop int32
+		var running int32
+		var mu sync.Mutex
+		open := map[string]bool{}
+		spawn := func(name string, f func()) {
+			atomic.AddInt32(&running, 1)
+			mu.Lock()
+			open[name] = true
+			mu.Unlock()
+			go func() {
+				f()
+				mu.Lock()
+				delete(open, name)
+				mu.Unlock()
+				atomic.AddInt32(&running, -1)
+			}()
+		}
+		loop := func(name string, f func()) {
+			spawn(name, func() {
+				for atomic.LoadInt32(&stop) == 0 {
+					f()
+				}
+			})
+		}
+		loop("SetReliabilityParams", func() { sa.SetReliabilityParams(kd.unord, kd.rtype, kd.rval) })
+		loop("SetBufferedAmountLowThreshold", func() { sa.SetBufferedAmountLowThreshold(512) })
+		loop("OnBufferedAmountLow", func() { sa.OnBufferedAmountLow(func() {}) })
+		loop("BufferedAmount+State", func() { sa.BufferedAmount(); sa.State(); sa.StreamIdentifier(); sa.BufferedAmountLowThreshold() })
+		loop("SetReadDeadline", func() { sa.SetReadDeadline(time.Now().Add(time.Hour)) }) //nolint:errcheck
+		loop("Association accessors", func() { a.BufferedAmount(); a.SRTT(); a.CWND(); a.RWND(); a.MTU(); a.BytesSent(); a.BytesReceived() })
+		spawn("writer", func() {
+			payload := make([]byte, 200)
+			for i := 0; i < 600; i++ {
+				if _, err := sa.WriteSCTP(payload, PayloadTypeWebRTCBinary); err != nil {
+					return
+				}
+				if i%50 == 49 {
+					time.Sleep(2 * time.Millisecond)
+				}
+			}
+		})
+		// the writer's calls return at once (non-blocking writes); the write loop drains the queue in the background
+		time.Sleep(1500 * time.Millisecond)
+		atomic.StoreInt32(&stop, 1)
+		dl := time.Now().Add(8 * time.Second)
+		for time.Now().Before(dl) && atomic.LoadInt32(&running) > 0 {
+			time.Sleep(5 * time.Millisecond)
+		}
+		if atomic.LoadInt32(&running) == 0 {
+			tr.emit(map[string]any{"ev": "note", "what": "every goroutine finished", "t": w.now()})
+		} else {
+			x := vfMutexBlocked()
+			time.Sleep(time.Second)
+			y := vfMutexBlocked()
+			mu.Lock()
+			names := []string{}
+			for k := range open {
+				names = append(names, k)
+			}
+			mu.Unlock()
+			if len(x) >= 2 && strings.Join(x, "|") == strings.Join(y, "|") {
+				ls := []any{}
+				for _, s := range x {
+					ls = append(ls, s[strings.Index(s, " ")+1:])
+				}
+				tr.emit(map[string]any{"ev": "deadlock", "name": label, "stacks": ls, "n": len(ls), "calls": fmt.Sprint(names)})
+				fmt.Printf("VF-DEADLOCK scenario=%s\n", label)
+				return
+			}
+			dl = time.Now().Add(60 * time.Second)
+			for time.Now().Before(dl) && atomic.LoadInt32(&running) > 0 {
+				time.Sleep(5 * time.Millisecond)
+			}
+			if atomic.LoadInt32(&running) > 0 {
+				t.Fatalf("%s: goroutines %v did not finish but no certified lock cycle (mutex-blocked: %v)", label, names, x)
+			}
+			tr.emit(map[string]any{"ev": "note", "what": "every goroutine finished (slow)", "t": w.now()})
+		}
+		w.ep[0].conn.Close()
+		w.ep[1].conn.Close()
+		a.Close() //nolint:errcheck
+		b.Close() //nolint:errcheck
+		tr.emit(map[string]any{"ev": "end", "t": w.now(), "leaks": 0, "clean": true})
+	}
+}
